@@ -87,7 +87,7 @@ def okb(case, io, mo):
 
 def run(chk, replay=None):
     if replay: return replay_case(replay)
-    proof = proof_check_streams(PID, "C12Streams", extra=("C12MA", "C12MAQ"))
+    proof = proof_check_streams(PID, "C12Streams", extra=("C12MA", "C12MAQ", "CtorStreams"))
     drv = build_driver(); exe = build_harness("default"); cfg = harness_config(exe)
     rng = random.Random(chk.seed)
     big = chk.tier != "quick"
